@@ -7,7 +7,7 @@ outcome CLASS:
     ok | parser_error (class name) | renderer_error | os_error | crash (traceback) | hang
 
 stdin : JSON list of jobs, stdout: JSON list of results (same length).  Job kinds:
-  {"kind":"compile", "id", "dir", "files":{name: latin-1 text | {"b64":..}}, "main",
+  {"kind":"compile", "id", "dir", "files":{name: text (written as UTF-8) | {"b64": raw bytes}}, "main",
    "langs":["c","go","py"], "limit": seconds, "cli": bool}
   {"kind":"lex", "id", "text": str}           first token of the real Lexer on `text`
   {"kind":"expr", "id", "text": str}          parse_string("proto a\\nconst A = <text>\\n")
@@ -32,25 +32,39 @@ def _alarm(_s, _f):
 
 
 signal.signal(signal.SIGALRM, _alarm)
+signal.signal(signal.SIGPROF, _alarm)
+
+
+WALL_FACTOR = 8.0
 
 
 def _set_limit(sec: float) -> None:
-    signal.setitimer(signal.ITIMER_REAL, sec)
+    """`sec` seconds of CPU time of this process (user+system), and WALL_FACTOR times that of
+    wall-clock time as a backstop (the machine may be loaded; a blocked read burns no CPU)."""
+    signal.setitimer(signal.ITIMER_PROF, sec)
+    signal.setitimer(signal.ITIMER_REAL, sec * WALL_FACTOR)
 
 
 def _clear_limit() -> None:
+    signal.setitimer(signal.ITIMER_PROF, 0)
     signal.setitimer(signal.ITIMER_REAL, 0)
 
 
-def innermost_bitproto_frame(tb) -> str:
-    """file:function of the innermost frame that lies inside the bitproto package
-    (the raising function, or the bitproto function that called into ply / the stdlib)."""
-    site = "?"
+def bitproto_frames(tb) -> list:
+    """file:function of every frame that lies inside the bitproto package, outermost first."""
+    out = []
     for fs in traceback.extract_tb(tb):
         fn = fs.filename.replace("\\", "/")
         if "/bitproto/" in fn:
-            site = fn.split("/bitproto/", 1)[1] + ":" + fs.name
-    return site
+            out.append(fn.split("/bitproto/", 1)[1] + ":" + fs.name)
+    return out
+
+
+def innermost_bitproto_frame(tb) -> str:
+    """the innermost frame inside the bitproto package (the raising function, or the
+    bitproto function that called into ply / the stdlib)."""
+    fr = bitproto_frames(tb)
+    return fr[-1] if fr else "?"
 
 
 def classify(e: BaseException) -> dict:
@@ -67,7 +81,7 @@ def classify(e: BaseException) -> dict:
     tb = e.__traceback__
     last = traceback.extract_tb(tb)[-1] if tb else None
     return {"cls": "crash", "exc": type(e).__name__, "msg": str(e)[:160],
-            "site": innermost_bitproto_frame(tb),
+            "site": innermost_bitproto_frame(tb), "chain": bitproto_frames(tb)[-4:],
             "raised_in": (os.path.basename(last.filename) + ":" + last.name) if last else "?",
             "trace": "".join(traceback.format_exception(type(e), e, tb))[-1800:]}
 
@@ -145,21 +159,22 @@ def do_cli(job, main, limit) -> dict:
     lang = job.get("cli_lang", "py")
     cmd = [sys.executable, "-m", "bitproto._main", lang, main, job["dir"]]
     try:
-        p = subprocess.run(cmd, capture_output=True, timeout=limit + 20)
+        p = subprocess.run(cmd, capture_output=True, timeout=limit * WALL_FACTOR + 30)
     except subprocess.TimeoutExpired:
         return {"cls": "hang"}
     err = p.stderr.decode("utf-8", "replace")
     if "Traceback (most recent call last)" in err:
         lines = [l for l in err.strip().split("\n") if l.strip()]
         exc = lines[-1].split(":")[0].strip() if lines else "?"
-        site = "?"
+        chain = []
         for l in lines:
             l = l.strip()
             if l.startswith("File ") and "/bitproto/" in l:
                 fn = l.split('"')[1].split("/bitproto/", 1)[1]
-                site = fn + ":" + l.rsplit(" in ", 1)[-1]
-        return {"cls": "crash", "exc": exc.split(".")[-1], "site": site, "rc": p.returncode,
-                "trace": err[-1500:]}
+                chain.append(fn + ":" + l.rsplit(" in ", 1)[-1])
+        return {"cls": "crash", "exc": exc.split(".")[-1], "site": chain[-1] if chain else "?",
+                "chain": chain[-4:], "msg": lines[-1].split(":", 1)[-1].strip()[:160] if lines else "",
+                "rc": p.returncode, "trace": err[-1500:]}
     if p.returncode == 0:
         return {"cls": "ok", "rc": 0}
     return {"cls": "diagnostic", "rc": p.returncode, "stderr": err[-300:]}
